@@ -152,6 +152,13 @@ example : ∃ r, prune ['/'] ex [['/','r','/','a'], ['b']] false ['/'] 3 = .ok r
   obtain ⟨r, h1, h2, _⟩ := prune_nodes ['/'] ex _ false ['/'] 3 _ ex_locate ex_nonNested (Or.inl (by simp))
   exact ⟨r, h1, h2⟩
 
+/-- **prune_order.** The kept nodes appear in the result in the order they have in the input
+    (the kept addresses are a sublist of the input's pre-order address list) and each exactly once. -/
+theorem prune_order (ps : List Addr) (exact : Bool) (md : Nat) (t : Tree) :
+    (keptAddrs (pruneKeep ps exact md) [] t).Sublist (addrs [] t) ∧ (addrs [] t).Nodup
+      ∧ (keptAddrs (pruneKeep ps exact md) [] t).Nodup :=
+  ⟨keptAddrs_sublist _ t [], addrs_nodup t [], (keptAddrs_sublist _ t []).nodup (addrs_nodup t [])⟩
+
 /-- the addresses listed by `addrs` are exactly the positions at which the tree has a node -/
 theorem addrs_valid (t : Tree) (a : Addr) : a ∈ addrs [] t ↔ (subAt t a).isSome := mem_addrs_root t a
 
